@@ -182,6 +182,38 @@ def gen_cases(chk, n, salt, kinds=None, big=6):
     return cases
 
 
+def large_count_cases(chk):
+    """blocks whose counts do not fit one byte (256 or more of something): events, channels, signals, tracks,
+    segments per track, points per 2D cell, links, platforms"""
+    rng = common.rng_for(chk.seed, "largecounts")
+    out = []
+
+    def lab(i):
+        return [0x61 + (i % 26), 0x30 + (i // 26) % 10]
+    n = 256 + rng.randrange(0, 45)
+    out.append(("EV", 1, [n, blocks.rf32(rng), [[lab(i), 1, i % 3, [blocks.rf32(rng) for _ in range(i % 3)]] for i in range(n)]]))
+    n = 256 + rng.randrange(0, 45)
+    out.append(("OS", 1, [n, [], [[i, [], lab(i), [], lab(i + 1), [[0, i], [640, 480]]] for i in range(n)]]))
+    n = 257
+    out.append(("EM", 1, [n, 1000, blocks.rf32(rng), 2, list(range(n)), [[lab(i), [blocks.rf32(rng), []][:2] if i % 2 else [[], blocks.rf32(rng)]] for i in range(n)]]))
+    nfr = 620                                    # alternating presence: 310 segments in one track
+    fr3 = [[blocks.rf32(rng), blocks.rf32(rng), blocks.rf32(rng)] if i % 2 == 0 else [] for i in range(nfr)]
+    z3, z9 = [0, 0, 0], [0] * 9
+    out.append(("D3", 1, [nfr, 100, 0, 2, z3, z9, z3, 0, [300, [], [[i, i + 1] for i in range(300)]],
+                          [[lab(1), fr3], [lab(2), [[] for _ in range(nfr)]]]]))
+    fr9 = [[blocks.rf32(rng) for _ in range(9)] if i % 2 == 1 else [] for i in range(nfr)]
+    out.append(("FT", 1, [1, 100, 0, nfr, z3, z9, z3, [], [[lab(3), fr9]]]))
+    fr6 = [[blocks.rf32(rng) for _ in range(6)] if i % 3 else [] for i in range(nfr)]
+    out.append(("PD", 1, [2, 100, 0, nfr, [7, 32767], [fr6, fr6[::-1]]]))
+    n = 260
+    out.append(("PC", 2, [n, [], [i - 130 for i in range(n)], [[lab(i), [0, 0], [0] * 12, []] for i in range(n)]]))
+    cell = [[blocks.rf32(rng), blocks.rf32(rng)] for _ in range(300)]
+    out.append(("D2", 2, [2, 2, 100, 0, 0, [1, 2], [[cell, []], [[], cell[:257]]]]))
+    for k, f, v in out:
+        chk.count("large counts: " + k)
+    return out
+
+
 def load_corpus(pid):
     d = os.path.join(common.VERIF, "corpus", pid)
     out = []
